@@ -206,15 +206,17 @@ def fixed_size(spec: dict) -> int | None:
 MODEL_RUNS: dict[str, int] = {}   # ---- raw JSON framer ---- (how often each framer model was named: evidence `model_runs_by_framer`)
 
 
-def model_head(spec: dict, path: str, hint: int, fixed_variant: bool = True) -> str | None:
+def model_head(spec: dict, path: str, hint: int, fixed_variant: bool = True, *,
+               chunks: "list[bytes] | None" = None, real: "list[str] | None" = None) -> str | None:
     """endriver model + config for the receive side, or None if the framer has no Lean model (yet)"""
-    head = _model_head(spec, path, hint, fixed_variant)
+    head = _model_head(spec, path, hint, fixed_variant, chunks, real)
     if head is not None:
         MODEL_RUNS[head.split()[0]] = MODEL_RUNS.get(head.split()[0], 0) + 1
     return head
 
 
-def _model_head(spec: dict, path: str, hint: int, fixed_variant: bool = True) -> str | None:
+def _model_head(spec: dict, path: str, hint: int, fixed_variant: bool = True,
+                chunks: "list[bytes] | None" = None, real: "list[str] | None" = None) -> str | None:
     sep = separator(spec)
     if sep is not None:
         lim = limit_of(spec)
@@ -233,6 +235,13 @@ def _model_head(spec: dict, path: str, hint: int, fixed_variant: bool = True) ->
         # _JSONParser.raw_parse under the copying consumer (JSONSerializer has no buffered variant)
         return f"jraw {limit_of(spec)}"
     # ---- end raw JSON framer ----
+    # ---- generic framers ----
+    # file-based toys and zlib/bz2 wrappers: the model needs the loader/decompressor boundaries of the case's stream,
+    # computed with the real library from the reads (`chunks`) actually made; without them there is no model run
+    if chunks is not None:
+        from vlib import genericfr
+        return genericfr.head(spec, path, hint, chunks, real)
+    # ---- end generic framers ----
     return None
 
 
